@@ -11,7 +11,7 @@
 //! can abort the process; a sub-process confines that) and folds their results in index order.
 
 use raptorq::{
-    verif_plan_cache, EncodingPacket, ObjectTransmissionInformation, SourceBlockEncoder,
+    verif_plan_cache, Encoder, EncodingPacket, ObjectTransmissionInformation, SourceBlockEncoder,
     SourceBlockEncodingPlan,
 };
 use serde::{Deserialize, Serialize};
@@ -70,14 +70,26 @@ enum Req {
     /// than the code supports, makes plan generation panic); the thread catches the panic and goes
     /// on. The other threads, and this thread's later requests, must be unaffected.
     Crash,
+    /// `Encoder::new` for an object of two blocks, ks + 1 and ks symbols: the object encoder consults
+    /// the cache once per block size, possibly while other threads insert or evict those sizes
+    Object { ks: u16, data_seed: u8 },
 }
 impl Req {
     fn k(&self) -> u16 {
         match self {
             Req::New { k, .. } | Req::Plan { k } => *k,
+            Req::Object { ks, .. } => *ks,
             Req::Crash => 0,
         }
     }
+}
+
+fn object_for(ks: u16, data_seed: u8) -> (ObjectTransmissionInformation, Vec<u8>) {
+    let kt = 2 * ks as u64 + 1;
+    let oti = ObjectTransmissionInformation::new(kt * T as u64, T, 2, 1, 1);
+    let mut x = 0x0B1E_C700u64 ^ ((ks as u64) << 8 | data_seed as u64);
+    let data = (0..kt as usize * T as usize).map(|_| (splitmix64(&mut x) & 0xFF) as u8).collect();
+    (oti, data)
 }
 
 /// number of client crashes currently being provoked (the panic hook does not record those)
@@ -132,6 +144,11 @@ fn generate(seed: u64, idx: u64, capacity: usize) -> Scenario {
             if !big && r.chance(1, 25) && std::env::var("VERIF_C17_NO_CRASH").is_err() {
                 reqs.push(Req::Crash);
             }
+            if r.chance(1, 7) && k > 1 && std::env::var("VERIF_C17_NO_OBJECT").is_err() {
+                // block sizes k and k - 1: the longer block has a size the other threads ask for as well
+                // (an additional request: the walk through the pool stays complete)
+                reqs.push(Req::Object { ks: k - 1, data_seed: r.below(4) as u8 });
+            }
             if r.chance(1, 4) {
                 reqs.push(Req::Plan { k });
             } else {
@@ -176,24 +193,37 @@ fn observe(e: &SourceBlockEncoder) -> Observed {
 /// Reference answers, computed by one thread without any cache and outside shuttle (hook H3).
 struct Reference {
     encoders: BTreeMap<(u16, u8), Observed>,
+    objects: BTreeMap<(u16, u8), Vec<Observed>>,
 }
 fn build_reference(s: &Scenario) -> Reference {
     let cfg = ObjectTransmissionInformation::new(0, T, 0, 1, 1);
     let mut encoders = BTreeMap::new();
+    let mut objects = BTreeMap::new();
     for req in s.threads.iter().flatten() {
+        if let Req::Object { ks, data_seed } = req {
+            objects.entry((*ks, *data_seed)).or_insert_with(|| {
+                let (oti, data) = object_for(*ks, *data_seed);
+                let split = (*ks as usize + 1) * T as usize;
+                vec![
+                    observe(&SourceBlockEncoder::verif_new_unplanned(0, &oti, &data[..split], 250)),
+                    observe(&SourceBlockEncoder::verif_new_unplanned(1, &oti, &data[split..], 250)),
+                ]
+            });
+            continue;
+        }
         let key = match req {
             Req::New { k, data_seed } => (*k, *data_seed),
             // a plan handed out by the cache is judged by what an encoder built from it produces
             // (plans themselves need not be unique: any valid elimination order is a valid plan)
             Req::Plan { k } => (*k, 0u8),
-            Req::Crash => continue,
+            Req::Crash | Req::Object { .. } => continue,
         };
         encoders.entry(key).or_insert_with(|| {
             let e = SourceBlockEncoder::verif_new_unplanned(7, &cfg, &data_for(key.0, key.1), 250);
             observe(&e)
         });
     }
-    Reference { encoders }
+    Reference { encoders, objects }
 }
 
 /// Trace of one execution: (thread, event, k, cache keys in insertion order). Plain std mutex: adds
@@ -261,6 +291,16 @@ fn execute(s: &Scenario, reference: &StdArc<Reference>, trace: &Trace) {
                         );
                     }
                     Req::Crash => unreachable!(),
+                    Req::Object { ks, data_seed } => {
+                        let (oti, data) = object_for(ks, data_seed);
+                        let enc = Encoder::new(&data, oti);
+                        let got: Vec<Observed> = enc.get_block_encoders().iter().map(observe).collect();
+                        assert!(
+                            got == reference.objects[&(ks, data_seed)],
+                            "ORACLE[transparency] the block encoders of an object with blocks of {} and {ks} symbols differ from the uncached single-thread encoders",
+                            ks + 1
+                        );
+                    }
                     Req::Plan { k } => {
                         let plan: SourceBlockEncodingPlan = verif_plan_cache::get_or_generate(k);
                         // with_encoding_plan itself rejects a plan generated for another symbol count
